@@ -1,4 +1,5 @@
 """C04 — cancel() suppresses the whole trace and nothing else."""
+import known as K
 import seqcheck
 import seqrun
 from props import c09
@@ -9,8 +10,9 @@ def knobs(r, i):
 
 
 def run(v, tier, seed, replay):
-    cases, impl, model = seqcheck.run(v, tier, seed, replay, "C04", ["C04"], tree_oracles=["no_panic", "exactly_once", "tree", "attachments", "retained"], knobs=knobs,
-                 n_quick=(600, 100), n_thorough=(60000, 5000),
+    cases, impl, model = seqcheck.run(v, tier, seed, replay, "C04", ["C04"], tree_oracles=["no_panic", "exactly_once", "tree", "attachments", "retained"], knobs=knobs, known=K.known("C04", "D21"),
+                 extra_cases=lambda r: [K.case("C04", "D21", ["no_panic", "exactly_once"])],
+                 n_quick=(1800, 300), n_thorough=(60000, 5000),
                  assumptions=["queue-full episodes around cancel/finish are exercised in the C09 tier (forced commands FIFO, D2 fix)",
                               "a thread exiting with parked commands and a full queue can lose the drop (open finding D3, outside the stated property)"])
     # cancel()/finish on a really full 10240-slot queue (fault quantifier of C04)
